@@ -730,6 +730,9 @@ func (pe *PolicyEngine) AddPodByNameAndNamespace(name, ns string) (Peer, error) 
 		Name:      name,
 		Namespace: ns,
 		FakePod:   true,
+		// a policy may select this pod too (exposure analysis then updates its cluster-wide connections)
+		IngressExposureData: k8s.PodExposureInfo{ClusterWideConnection: common.MakeConnectionSet(false)},
+		EgressExposureData:  k8s.PodExposureInfo{ClusterWideConnection: common.MakeConnectionSet(false)},
 	}
 	if err := pe.resolveSingleMissingNamespace(ns); err != nil {
 		return nil, err
